@@ -356,6 +356,7 @@ pub fn run(mode: Mode, run: &Run) {
     idx.par_iter().for_each(|&i0| {
         let i = (i0 + seed) % total;
         let text = &all[i];
+        let _w = run.watch("program", "program", text);
         let prog: asp::Program = match text.parse() {
             Ok(p) => p,
             Err(_) => {
